@@ -46,7 +46,9 @@ def getStr (j : Json) (k : String) : Except String String := do (← j.getObjVal
 def getNat (j : Json) (k : String) : Except String Nat := do (← j.getObjVal? k).getNat?
 def getBool (j : Json) (k : String) : Except String Bool := do (← j.getObjVal? k).getBool?
 def getArr (j : Json) (k : String) : Except String (List Json) := do
-  pure (← (← j.getObjVal? k).getArr?).toList
+  match ← j.getObjVal? k with
+  | Json.null => pure []          -- Go marshals a nil slice as null
+  | v => pure (← v.getArr?).toList
 def getStrList (j : Json) (k : String) : Except String (List String) := do
   (← getArr j k).mapM fun x => x.getStr?
 def getNatList (j : Json) (k : String) : Except String (List Nat) := do
